@@ -9,9 +9,9 @@ Require Import Laze.model.Base Laze.model.Path Laze.model.Load Laze.model.Cache.
 Require Import Laze.proofs.BaseFacts Laze.proofs.CacheInstance Laze.proofs.LoadFrame Laze.proofs.LoadTotal.
 Open Scope list_scope.
 
-(* the (file, document) pairs of a list of files, in order *)
-Definition docs_of_files (t : ytree) (fs : list finc) : list (str * ydoc) :=
-  flat_map (fun inc => map (fun d => (fst inc, d)) (odflt [] (alookup (fst inc) t))) fs.
+(* the (file, import root, document) triples of a list of work-list entries, in order *)
+Definition docs_of_files (t : ytree) (fs : list finc) : list (str * option str * ydoc) :=
+  flat_map (fun inc => map (fun d => (fst inc, finc_root inc, d)) (odflt [] (alookup (fst inc) t))) fs.
 
 Lemma map_combine_seq {A B} (f : nat * A -> B) (g : A -> B) (l : list A) : forall s,
   (forall i a, f (i, a) = g a) -> map f (combine (seq s (length l)) l) = map g l.
@@ -21,30 +21,33 @@ Qed.
 
 Lemma load_files_docs : forall fuel (t : ytree) (pending : list finc) pos docs ds (fs : list finc),
   pos <= length pending ->
-  map (fun d => (ld_file d, ld_doc d)) docs = docs_of_files t (firstn pos pending) ->
+  map (fun d => (ld_file d, ld_root d, ld_doc d)) docs = docs_of_files t (firstn pos pending) ->
   load_files fuel t pending pos docs = Ok (ds, fs) ->
-  map (fun d => (ld_file d, ld_doc d)) ds = docs_of_files t fs.
+  map (fun d => (ld_file d, ld_root d, ld_doc d)) ds = docs_of_files t fs.
 Proof.
   induction fuel as [|f IH]; intros t pending pos docs ds fs Hpos Hd HL; [discriminate|].
   rewrite load_files_S in HL. destruct (nth_error pending pos) as [inc|] eqn:En.
   - destruct (alookup (fst inc) t) as [ds0|] eqn:Ea; [|discriminate].
+    destruct (step_pending t inc (length docs) ds0 pending) as [p1| | |] eqn:ES; try discriminate.
     assert (Hpl : pos < length pending) by (apply nth_error_Some; rewrite En; discriminate).
-    destruct (step_pending_ext inc (length docs) ds0 pending) as [e Ee].
+    destruct (step_pending_ext _ _ _ _ _ _ ES) as [e Ee].
     apply IH in HL; [exact HL| |].
     + rewrite Ee, app_length. lia.
     + rewrite Ee, firstn_app. replace (S pos - length pending) with 0 by lia. rewrite firstn_O, app_nil_r.
       rewrite (firstn_S_nth _ _ _ En). unfold docs_of_files. rewrite flat_map_app, map_app. fold (docs_of_files t (firstn pos pending)).
       rewrite Hd. f_equal. cbn [flat_map]. rewrite app_nil_r, Ea. cbn [odflt].
-      rewrite map_map. apply map_combine_seq. intros i a. reflexivity.
+      unfold new_docs. rewrite map_map. apply map_combine_seq. intros i a. reflexivity.
   - injection HL as <- <-. rewrite Hd. f_equal.
     apply firstn_all2. apply nth_error_None in En. exact En.
 Qed.
 
+(* each (file, import root) is loaded exactly once: the keys of the final work-list are distinct and
+   the loaded documents are, in order, the documents of its files *)
 Theorem load_files_once (t : ytree) pf fuel ds (fs : list finc) :
-  load_files fuel t [(pf, None)] 0 [] = Ok (ds, fs) ->
-  NoDup (map fst fs) /\
-  map (fun d => (ld_file d, ld_doc d)) ds = docs_of_files t fs /\
-  (exists ext, fs = (pf, None) :: ext).
+  load_files fuel t [(pf, (None, None))] 0 [] = Ok (ds, fs) ->
+  NoDup (map finc_key fs) /\
+  map (fun d => (ld_file d, ld_root d, ld_doc d)) ds = docs_of_files t fs /\
+  (exists ext, fs = (pf, (None, None)) :: ext).
 Proof.
   intros HL. split; [|split].
   - refine (load_files_nodup _ _ _ _ _ _ _ _ HL). cbn. constructor; [intros []|constructor].
@@ -52,39 +55,95 @@ Proof.
   - destruct (load_files_prefix _ _ _ _ _ _ _ HL) as [e ->]. exists e. reflexivity.
 Qed.
 
+(* without imports there is one import root (none), so the file names themselves are distinct:
+   a lazefile reachable through subdirs/includes is loaded once *)
+Definition no_imports (t : ytree) : Prop :=
+  forall f ds d, alookup f t = Some ds -> In d ds -> d_imports d = None.
+
+Lemma load_files_roots_none : forall fuel (t : ytree) (pending : list finc) pos docs ds (fs : list finc),
+  no_imports t -> Forall (fun inc => finc_root inc = None) pending ->
+  load_files fuel t pending pos docs = Ok (ds, fs) -> Forall (fun inc => finc_root inc = None) fs.
+Proof.
+  induction fuel as [|f IH]; intros t pending pos docs ds fs Hno HF HL; [discriminate|].
+  rewrite load_files_S in HL. destruct (nth_error pending pos) as [inc|] eqn:En.
+  - destruct (alookup (fst inc) t) as [ds0|] eqn:Ea; [|discriminate].
+    destruct (step_pending t inc (length docs) ds0 pending) as [p1| | |] eqn:ES; try discriminate.
+    apply IH in HL; [exact HL|exact Hno|].
+    assert (Hinc : finc_root inc = None).
+    { rewrite Forall_forall in HF. apply HF. eapply nth_error_In. exact En. }
+    (* every new document has no imports, so the import fold inserts nothing *)
+    revert ES. unfold step_pending.
+    assert (Hnew : forall d, In d (new_docs inc (length docs) ds0) -> d_imports (ld_doc d) = None).
+    { intros d Hd. unfold new_docs in Hd. apply in_map_iff in Hd. destruct Hd as ([i y] & <- & Hiy). cbn [ld_doc snd].
+      apply in_combine_r in Hiy. eapply Hno; [exact Ea|exact Hiy]. }
+    revert Hnew. generalize (new_docs inc (length docs) ds0). intros new Hnew.
+    assert (G : forall acc q, (forall p, acc = Ok p -> Forall (fun inc => finc_root inc = None) p) ->
+                fold_left (fun acc d => rbind acc (fun p => step_doc t inc p d)) new acc = Ok q ->
+                Forall (fun inc => finc_root inc = None) q).
+    { induction new as [|d r IHn]; intros acc q Hacc HF2; cbn [fold_left] in HF2; [apply Hacc, HF2|].
+      eapply IHn; [intros d' Hd'; apply Hnew; right; exact Hd'| |exact HF2].
+      intros p Hp. destruct acc as [p0| | |]; cbn [rbind] in Hp; try discriminate.
+      unfold step_doc in Hp. rewrite (Hnew d (or_introl eq_refl)) in Hp. cbn [odflt fold_left rbind] in Hp.
+      injection Hp as <-.
+      assert (Hins : forall (g : str -> finc) l q1, (forall s, finc_root (g s) = None) ->
+                Forall (fun inc => finc_root inc = None) q1 ->
+                Forall (fun inc => finc_root inc = None) (fold_left (fun p2 s => finc_insert (g s) p2) l q1)).
+      { intros g l. induction l as [|s l' IHl]; intros q1 Hg Hq1; cbn [fold_left]; [exact Hq1|]. apply IHl; [exact Hg|].
+        unfold finc_insert. destruct (existsb (finc_eqb (g s)) q1); [exact Hq1|]. apply Forall_app. split; [exact Hq1|].
+        constructor; [apply Hg|constructor]. }
+      apply Hins; [intros s; exact Hinc|]. apply Hins; [intros s; exact Hinc|]. apply Hacc. reflexivity. }
+    intros ES. eapply G; [|exact ES]. intros p [= <-]. exact HF.
+  - injection HL as _ <-. exact HF.
+Qed.
+
+Corollary load_files_once_no_imports (t : ytree) pf fuel ds (fs : list finc) :
+  no_imports t -> load_files fuel t [(pf, (None, None))] 0 [] = Ok (ds, fs) -> NoDup (map fst fs).
+Proof.
+  intros Hno HL. destruct (load_files_once _ _ _ _ _ HL) as (ND & _ & _).
+  assert (HR : Forall (fun inc => finc_root inc = None) fs).
+  { eapply load_files_roots_none; [exact Hno| |exact HL]. constructor; [reflexivity|constructor]. }
+  clear HL. induction fs as [|x r IH]; [constructor|]. cbn [map] in *.
+  inversion ND as [|? ? Hx ND']; subst. inversion HR as [|? ? Hxr HR']; subst. constructor; [|apply IH; assumption].
+  intros Hin. apply Hx. apply in_map_iff in Hin. destruct Hin as (y & Hy & Hyr). apply in_map_iff. exists y. split; [|exact Hyr].
+  unfold finc_key. rewrite Hy. f_equal. rewrite Forall_forall in HR'. rewrite (HR' y Hyr), Hxr. reflexivity.
+Qed.
+
 (* every document is one of its file's documents in the tree, and a file's documents are loaded as
-   often as the file is written in the tree: once *)
-Corollary loaded_doc_count (t : ytree) pf fuel ds (fs : list finc) f :
-  load_files fuel t [(pf, None)] 0 [] = Ok (ds, fs) ->
-  length (filter (fun d => str_eqb (ld_file d) f) ds) =
-  if existsb (fun inc : finc => str_eqb (fst inc) f) fs then length (odflt [] (alookup f t)) else 0.
+   often as the file is written in the tree: once per import root under which it is reached *)
+Corollary loaded_doc_count (t : ytree) pf fuel ds (fs : list finc) f r :
+  load_files fuel t [(pf, (None, None))] 0 [] = Ok (ds, fs) ->
+  length (filter (fun d => str_eqb (ld_file d) f && ostr_eqb (ld_root d) r) ds) =
+  if existsb (fun inc : finc => str_eqb (fst inc) f && ostr_eqb (finc_root inc) r) fs then length (odflt [] (alookup f t)) else 0.
 Proof.
   intros HL. destruct (load_files_once _ _ _ _ _ HL) as (ND & Hd & _).
-  assert (Hlen : length (filter (fun d => str_eqb (ld_file d) f) ds)
-                 = length (filter (fun p : str * ydoc => str_eqb (fst p) f) (map (fun d => (ld_file d, ld_doc d)) ds))).
-  { clear. induction ds as [|d r IH]; [reflexivity|]. cbn. destruct (str_eqb (ld_file d) f); cbn; rewrite IH; reflexivity. }
-  rewrite Hlen, Hd. clear Hlen Hd HL ds. induction fs as [|inc r IH]; [reflexivity|].
+  set (sel := fun p : str * option str * ydoc => str_eqb (fst (fst p)) f && ostr_eqb (snd (fst p)) r).
+  assert (Hlen : length (filter (fun d => str_eqb (ld_file d) f && ostr_eqb (ld_root d) r) ds)
+                 = length (filter sel (map (fun d => (ld_file d, ld_root d, ld_doc d)) ds))).
+  { clear. induction ds as [|d r0 IH]; [reflexivity|]. cbn. unfold sel at 1. cbn [fst snd].
+    destruct (str_eqb (ld_file d) f && ostr_eqb (ld_root d) r); cbn; rewrite IH; reflexivity. }
+  rewrite Hlen, Hd. clear Hlen Hd HL ds. induction fs as [|inc rest IH]; [reflexivity|].
   cbn [map] in ND. inversion ND as [|? ? Hni ND']; subst.
   unfold docs_of_files in *. cbn [flat_map existsb]. rewrite filter_app, app_length, (IH ND').
-  destruct (str_eqb (fst inc) f) eqn:Ef.
-  - apply str_eqb_eq in Ef. subst f. cbn [orb].
-    assert (Hno : existsb (fun inc0 : finc => str_eqb (fst inc0) (fst inc)) r = false).
-    { destruct (existsb _ r) eqn:Ex; [|reflexivity]. exfalso. apply existsb_exists in Ex. destruct Ex as (x & Hx & Hxe).
-      apply str_eqb_eq in Hxe. apply Hni. rewrite <- Hxe. apply in_map, Hx. }
+  destruct (str_eqb (fst inc) f && ostr_eqb (finc_root inc) r) eqn:Ef.
+  - apply andb_prop in Ef. destruct Ef as [Ef Er]. apply str_eqb_eq in Ef. apply ostr_eqb_eq in Er. subst f r. cbn [orb].
+    assert (Hno : existsb (fun inc0 : finc => str_eqb (fst inc0) (fst inc) && ostr_eqb (finc_root inc0) (finc_root inc)) rest = false).
+    { destruct (existsb _ rest) eqn:Ex; [|reflexivity]. exfalso. apply existsb_exists in Ex. destruct Ex as (x & Hx & Hxe).
+      apply andb_prop in Hxe. destruct Hxe as [H1 H2]. apply str_eqb_eq in H1. apply ostr_eqb_eq in H2.
+      apply Hni. apply in_map_iff. exists x. split; [|exact Hx]. unfold finc_key. rewrite H1, H2. reflexivity. }
     rewrite Hno, Nat.add_0_r.
     generalize (odflt [] (alookup (fst inc) t)). intros l. induction l as [|d l IHl]; [reflexivity|].
-    cbn. rewrite str_eqb_refl. cbn. f_equal. exact IHl.
+    cbn. unfold sel at 1. cbn [fst snd]. rewrite str_eqb_refl. rewrite (proj2 (ostr_eqb_eq _ _) eq_refl). cbn. f_equal. exact IHl.
   - cbn [orb].
-    assert (Hz : length (filter (fun p : str * ydoc => str_eqb (fst p) f) (map (fun d => (fst inc, d)) (odflt [] (alookup (fst inc) t)))) = 0).
-    { generalize (odflt [] (alookup (fst inc) t)). intros l. induction l as [|d l IHl]; [reflexivity|]. cbn. rewrite Ef. exact IHl. }
+    assert (Hz : length (filter sel (map (fun d => (fst inc, finc_root inc, d)) (odflt [] (alookup (fst inc) t)))) = 0).
+    { generalize (odflt [] (alookup (fst inc) t)). intros l. induction l as [|d l IHl]; [reflexivity|]. cbn. unfold sel at 1. cbn [fst snd]. rewrite Ef. exact IHl. }
     rewrite Hz. reflexivity.
 Qed.
 
 (* ${relpath} / ${srcdir} of a module are the directory of the file it is written in (unless the
    module says srcdir: or download: itself); the early environment carries exactly these *)
 Require Import Laze.model.Env Laze.model.Ctx Laze.proofs.GenerateFacts.
-Theorem convert_module_relpath build_dir y context is_binary filename defaults m :
-  convert_module build_dir y context is_binary filename defaults = Ok m ->
+Theorem convert_module_relpath build_dir y context is_binary filename root defaults m :
+  convert_module build_dir y context is_binary filename root defaults = Ok m ->
   m_relpath m = Some (relpath_of filename) /\ m_defined_in m = Some filename /\
   (ym_srcdir y = None -> ym_download y = None ->
    m_srcdir m = Some (if str_eqb (relpath_of filename) [ch_dot] then [] else relpath_of filename)) /\
